@@ -201,6 +201,12 @@ def r2_shortcut_vs_dispatch(ctx) -> None:
 
 
 # ------------------------------------------------------------------------------------------ R3
+def _none_branch_raises(f: FuncInfo) -> bool:
+    """`if self.group_expression is None:` refuses (raises) instead of passing the ungrouped text on"""
+    ifs = [x for x in walk_no_nested(f.node) if isinstance(x, ast.If) and unparse(x.test).replace(" ", "") == "self.group_expressionisNone"]
+    return bool(ifs) and all(isinstance(x.body[-1], ast.Raise) for x in ifs)
+
+
 def r3_implicit_operators(ctx) -> None:
     r, prog = ctx.r, ctx.prog
     r.rule("C01.R3", "every handler that synthesises an OR/AND and converts it is known to the grouping mechanism: its value class is special-cased in compare_precedence with that operator, or the handler groups its own result according to the enclosing operator")
@@ -213,6 +219,23 @@ def r3_implicit_operators(ctx) -> None:
     for q, f in sorted(prog.funcs.items()):
         if not q.startswith(("sigma.conversion.base.", "sigma.backends.")) or f.name.startswith("convert_correlation") or f.name == "compare_precedence":
             continue
+        for c in (x for x in walk_no_nested(f.node) if isinstance(x, ast.Call) and call_name(x) == "ConditionNOT"):
+            # a NOT synthesised while converting a leaf (exists: false without explicit template)
+            n_found += 1
+            loc = f"{f.module.relpath}:{c.lineno}"
+            vcls = "SigmaExists" if f.name.endswith("_exists") else None
+            ranked = None
+            for br in (x for x in walk_no_nested(cp.node) if isinstance(x, ast.If)):
+                if vcls and f"isinstance(inner.value, {vcls})" in unparse(br.test):
+                    ranked = "self.precedence.index(ConditionNOT)" in "\n".join(unparse(x) for x in br.body)
+                    flag_ok = "not self.explicit_not_exists_expression" in unparse(br.test) and "not inner.value" in unparse(br.test)
+            if ranked and flag_ok:
+                r.ok("C01.R3", q, f"ConditionNOT(...) for {vcls}(False): ranked as ConditionNOT in compare_precedence under the same condition (no explicit not-exists template)", loc)
+            elif ranked:
+                r.violation("C01.R3", q, short(prog.enclosing_stmt(c), 120), "compare_precedence ranks the not-exists leaf as NOT under another condition than the one under which the handler synthesises the NOT (value false and no explicit not-exists template)", loc)
+            else:
+                r.violation("C01.R3", q, short(prog.enclosing_stmt(c), 120),
+                            f"this handler turns a leaf ({vcls}) into a NOT and converts it, but compare_precedence ranks the leaf as a plain field expression: with a precedence in which NOT does not bind tightest the enclosing AND/OR emits `not exists(a) and b`, which the target reads as not (exists(a) and b)", loc)
         for c in (x for x in walk_no_nested(f.node) if isinstance(x, ast.Call) and call_name(x) in ("ConditionOR", "ConditionAND")):
             n_found += 1
             loc = f"{f.module.relpath}:{c.lineno}"
@@ -243,7 +266,8 @@ def r3_implicit_operators(ctx) -> None:
                     for gtxt, pol in atomic_guards(guards_at(prog, f, gst)):
                         gt = gtxt.replace(" ", "")
                         allowed = (gt.startswith("isinstance(") or gt.startswith("isinstance(converted,str)") or gt.startswith("len(expanded)>") or "parent_chain" in gt or gt.startswith("len(enclosing)")
-                                   or "self.precedence" in gt or gt.startswith("enclosing[0]in") or gt == "self.group_expressionisnotNone" or gt == "self.cidr_expressionisnotNone"
+                                   or "self.precedence" in gt or gt.startswith("enclosing[0]in") or gt == "self.cidr_expressionisnotNone"
+                                   or (gt == "self.group_expressionisNone" and pol is False and _none_branch_raises(f))
                                    or (syn is not None and gt == f"self.decide_convert_condition_as_in_expression({syn},state)" and pol is False))
                         if not allowed:
                             odd.append((gtxt, pol))
